@@ -354,6 +354,33 @@ class Analysis:
             return []
         return [(x, st) for x in body.succ(bb)]
 
+    _RET_CACHE = {}
+
+    def _callee_return_iv(self, c):
+        key = (c, id(self.field_inv))
+        if key in Analysis._RET_CACHE:
+            return Analysis._RET_CACHE[key]
+        Analysis._RET_CACHE[key] = None          # recursion guard
+        H = self.prog.bodies.get(c)
+        depth = getattr(self, "depth", 0)
+        if H is None or getattr(H, "crate", None) != "rustic_core" or len(H.blocks) > 80 or depth >= 2:
+            return None
+        try:
+            a = Analysis(self.prog, H, sources=self.sources, field_inv=self.field_inv, validators=self.validators, benign=self.benign, benign_len=self.benign_len)
+            a.depth = depth + 1
+            a.run()
+            ivs = []
+            for (bb, st) in a.ok_return_states:
+                iv, _, tn = a.read(st, ["c", [0]])
+                if iv is None:
+                    return None
+                ivs.append(iv)
+            res = (min(x[0] for x in ivs), max(x[1] for x in ivs)) if ivs else None
+        except Exception:
+            res = None
+        Analysis._RET_CACHE[key] = res
+        return res
+
     def note_return(self, st, bb):
         self.ok_return_states.append((bb, st.copy()))
 
@@ -735,6 +762,10 @@ class Analysis:
             keys = [x[1] for x in ivs]
             self.write(st, t["dest"], None, tn, ("validated", c, tuple(keys)))
             return
+        if res is None and int_in(dty):
+            # a small helper of the analysed crate returning an integer (`fn take_open_buf(&mut self, ..) -> usize`): its return
+            # interval under the same field invariants (arguments unknown)
+            res = self._callee_return_iv(c)
         if res is None and int_in(dty):
             res = int_in(dty) if tn else self.default_iv(None, dty if ty_range(dty) else "u64", False)
             r = int_in(dty)
